@@ -713,11 +713,62 @@ def _normalise_fields(doc, base, crate):
     return doc
 
 
+# Named one-line wrappers around an external routine: a direct call of the wrapped routine is the same operation spelled
+# without the wrapper (`u8_from_number(i.clone())` == `i.to_signed_bytes_be()`).  Rules that name the wrapper as "the
+# encoder" would otherwise report the direct spelling as a second, unchecked encoding.  The wrapper is verified to be
+# trivial on every run; if it stops being trivial nothing is rewritten.
+CANONICAL_WRAPPERS = ("util::u8_from_number",)
+
+
+def _canonicalise_wrappers(p):
+    for w in CANONICAL_WRAPPERS:
+        g = p.fns.get(w)
+        if g is None or g.argc != 1:
+            continue
+        calls = [t for _, t in g.calls()]
+        if len(calls) != 1 or calls[0].get("callee_local") or calls[0].get("target_local"):
+            continue
+        t = calls[0]
+        arg = t["args"][0] if len(t["args"]) == 1 else None
+        ap = op_place(arg) if arg else None
+        if ap is None:
+            continue
+        # the argument is the parameter (or a borrow of it) and the result is returned as is
+        srcs = {ap["l"]}
+        for _, _, st in g.stmts():
+            if st["pl"]["l"] in srcs and not st["pl"]["p"] and st["rv"]["k"] in ("ref", "use"):
+                for o in rv_operands(st["rv"]):
+                    pp = op_place(o)
+                    if pp is not None:
+                        srcs.add(pp["l"])
+        if 1 not in srcs or t["dest"]["l"] != 0 or t["dest"]["p"]:
+            continue
+        wrapped = callee_of(t)
+        if not wrapped:
+            continue
+        n = 0
+        for f in p.fns.values():
+            if f.path == w:
+                continue
+            for _, t2 in f.calls(include_cleanup=True):
+                if callee_of(t2) == wrapped and len(t2["args"]) == 1:
+                    t2["canonicalised_from"] = wrapped
+                    t2["callee"] = w
+                    t2["target_fn"] = w
+                    t2["callee_local"] = True
+                    t2["target_local"] = True
+                    t2.pop("virtual", None)
+                    n += 1
+        p.canonicalised = getattr(p, "canonicalised", {})
+        p.canonicalised[w] = {"wrapped": wrapped, "calls_rewritten": n}
+
+
 def load_program(main_path, bins_path=None):
     p = Program()
     doc, moved = _normalise_moves(json.load(open(main_path)))
     p.moved = moved
     p.add(doc)
+    _canonicalise_wrappers(p)
     if bins_path:
         p.add(json.load(open(bins_path)), strip_prefix="chialisp")
     return p
